@@ -1,5 +1,4 @@
-//go:build verif
-
+//go:build verif && verif_c10
 // Verification hooks for property C10 (number-format rendering). Compiled only
 // with `-tags verif`; adds code and changes none.
 
